@@ -136,12 +136,21 @@ WEIRD_NAMES = ["été", "漢字", "a.b", "a-b", "_lead", "x.1", "naïve-Name", "
                "_", "__", "_1", "_1abc", "_-_", "H₂O", "x₂", "a⁀b", "ⅷ", "_._"]
 
 
+YASERDE_MEMBER_POSITIONS = ("local-element", "attribute")
+
+
 def weird_name_matrix():
     """Legal NCNames that are awkward for case conversion (non-ASCII letters, dots, dashes, digits, combining marks) in every
     naming position. The expected Rust spelling is not predicted: the claim is "parses, compiles, component still there"."""
+    import unicodedata
     out = []
     for nm in WEIRD_NAMES:
         for pos in POSITIONS:
+            if pos in YASERDE_MEMBER_POSITIONS and any(unicodedata.category(c) == "No" for c in nm):
+                # yaserde_derive 0.12 makes identifiers of its own out of a member's rename label and panics on a label with a
+                # character like U+2082 (it copes with '.', '-', U+00B7): nothing a generator could emit for such a member
+                # compiles, so the cell says nothing about zeep (DESIGN §10)
+                continue
             ss = base_program(names={pos: Name((nm.lower(),), "snake", nm)})
             ss.features = {f"weird-name:{nm}", f"position:{pos}"}
             out.append((nm, pos, ss))
